@@ -366,16 +366,27 @@ func (e *env) finalMonitors() {
 			startedCancelled++
 		}
 	}
-	if !anyFail && !callerCancelledSeen {
+	// "call f exactly once for every index or element when no call fails": with a live caller context
+	// unconditionally; with a cancelled one the call may stop early, but then it has to say so - a nil
+	// result claims that everything was done (nil error => every index called exactly once).
+	claimsDone := e.panicked == nil && e.retErr == nil
+	if !anyFail && (!callerCancelledSeen || claimsDone) {
+		why := "although no call failed"
+		if callerCancelledSeen {
+			why = "although no call failed and the result is nil (the caller's context ended, but the call did not report it)"
+		}
+		p := func(n int) map[string]interface{} {
+			return map[string]interface{}{"count": n, "caller_ctx_ended": callerCancelledSeen}
+		}
 		for i := 0; i < sc.N; i++ {
 			if count[i] != 1 {
-				e.viol("exactly-once", fmt.Sprintf("f was called %d times for index %d (n=%d, parallelism=%d) although no call failed", count[i], i, sc.N, sc.P), map[string]interface{}{"count": count[i]})
+				e.viol("exactly-once", fmt.Sprintf("f was called %d times for index %d (n=%d, parallelism=%d) %s", count[i], i, sc.N, sc.P, why), p(count[i]))
 				break
 			}
 		}
 		for i := range count {
 			if i < 0 || i >= sc.N {
-				e.viol("exactly-once", fmt.Sprintf("f was called with index %d outside [0,%d)", i, sc.N), map[string]interface{}{"count": count[i]})
+				e.viol("exactly-once", fmt.Sprintf("f was called with index %d outside [0,%d)", i, sc.N), p(count[i]))
 				break
 			}
 		}
@@ -387,9 +398,19 @@ func (e *env) finalMonitors() {
 		if len(e.retOut) != sc.N {
 			e.viol("positional", fmt.Sprintf("result has length %d for %d inputs", len(e.retOut), sc.N), nil)
 		} else {
+			// "put result i at position i": after a nil return every position holds what the one call for
+			// that element returned (a position no call produced is not a result)
+			val := map[int]int{}
 			for _, c := range e.calls {
-				if c.idx >= 0 && c.idx < sc.N && count[c.idx] == 1 && e.retOut[c.idx] != c.res.v {
-					e.viol("positional", fmt.Sprintf("out[%d] = %d but f(in[%d]) returned %d", c.idx, e.retOut[c.idx], c.idx, c.res.v), nil)
+				val[c.idx] = c.res.v
+			}
+			for i := 0; i < sc.N; i++ {
+				if count[i] == 0 {
+					e.viol("positional", fmt.Sprintf("the result is nil but out[%d] = %d was produced by no call of f (f was never called for element %d)", i, e.retOut[i], i), map[string]interface{}{"missing": true})
+					break
+				}
+				if count[i] == 1 && e.retOut[i] != val[i] {
+					e.viol("positional", fmt.Sprintf("out[%d] = %d but f(in[%d]) returned %d", i, e.retOut[i], i, val[i]), nil)
 					break
 				}
 			}
@@ -780,8 +801,20 @@ func check(t *testing.T, sc *Scenario, r *vlib.Rand, m *vlib.Model, res *vlib.Re
 			s2 := *sc
 			s2.Steps = steps
 			small = &s2
+		} else if sc.Kind == "timed" && o.Stuck == "" {
+			small = shrinkTimed(t, sc, v.Kind)
 		}
-		res.Fail(vlib.Failure{Source: "monitor", Kind: v.Kind, Params: v.Params, What: v.What, Case: small})
+		what, params := v.What, v.Params
+		if small != sc {
+			// describe the shrunk case, not the one it was found on
+			for _, v2 := range runScenario(t, small, nil, 0).Viols {
+				if v2.Kind == v.Kind {
+					what, params = v2.What, v2.Params
+					break
+				}
+			}
+		}
+		res.Fail(vlib.Failure{Source: "monitor", Kind: v.Kind, Params: params, What: what, Case: small})
 	}
 	if m != nil && sc.Kind == "script" && len(o.Lines) > 0 {
 		i, got, err := conform(m, o.Lines)
@@ -800,6 +833,124 @@ func check(t *testing.T, sc *Scenario, r *vlib.Rand, m *vlib.Model, res *vlib.Re
 		}
 	}
 	return o
+}
+
+// shrinkTimed simplifies a failing timed scenario (fewer elements, plainer parallelism, fewer failing
+// calls, no latencies) as long as the same monitor kind still fires; bounded number of runs.
+func shrinkTimed(t *testing.T, sc *Scenario, kind string) *Scenario {
+	cur := *sc
+	runs := 0
+	fails := func(c *Scenario) bool {
+		if runs >= 60 {
+			return false
+		}
+		runs++
+		o := runScenario(t, c, nil, 0)
+		for _, v := range o.Viols {
+			if v.Kind == kind {
+				return true
+			}
+		}
+		return false
+	}
+	for changed := true; changed && runs < 60; {
+		changed = false
+		try := func(mod func(c *Scenario)) {
+			c := cur
+			c.Fail = append([]int(nil), cur.Fail...)
+			mod(&c)
+			var keep []int
+			for _, f := range c.Fail {
+				if f < c.N {
+					keep = append(keep, f)
+				}
+			}
+			c.Fail = keep
+			if c.key() == cur.key() {
+				return
+			}
+			if fails(&c) {
+				cur, changed = c, true
+			}
+		}
+		for _, n := range []int{0, 1, 2, 3, 4, cur.N / 2, cur.N - 1} {
+			if n >= 0 && n < cur.N {
+				n := n
+				before := cur.N
+				try(func(c *Scenario) { c.N = n })
+				if cur.N != before {
+					break
+				}
+			}
+		}
+		if len(cur.Fail) > 0 {
+			try(func(c *Scenario) { c.Fail = nil })
+		}
+		if len(cur.Fail) > 1 {
+			try(func(c *Scenario) { c.Fail = c.Fail[:1] })
+			try(func(c *Scenario) { c.Fail = c.Fail[len(c.Fail)-1:] })
+		}
+		if cur.LatMax != 0 {
+			try(func(c *Scenario) { c.LatMax, c.LatMode, c.LatSeed = 0, 0, 0 })
+		}
+		if cur.LatMode != 2 && cur.LatMax != 0 {
+			try(func(c *Scenario) { c.LatMode, c.LatSeed = 2, 0 })
+		}
+		if cur.P != 1 {
+			try(func(c *Scenario) { c.P, c.Gmp = 1, 0 })
+		}
+		if cur.P > 2 {
+			try(func(c *Scenario) { c.P = 2 })
+		}
+		if cur.P <= 0 && cur.Gmp > 1 {
+			try(func(c *Scenario) { c.Gmp = 1 })
+			try(func(c *Scenario) { c.Gmp = 2 })
+		}
+		if cur.CancelAt > 1 {
+			try(func(c *Scenario) { c.CancelAt = 1 })
+		}
+	}
+	return &cur
+}
+
+// directedSequential: the sequential path (effective parallelism 1: parallelism == 1; n == 1 with any
+// parallelism; parallelism <= 0 under GOMAXPROCS 1) crossed with a caller context that is already
+// cancelled / is cancelled while call k is in progress, every call succeeding. Script form (gated calls,
+// conformance with the LTS) and timed form (constant latency 2ms, cancellation by cancel() or by
+// deadline at 2k+1 ms). Parallel rows with the same cancellation points for contrast.
+func directedSequential() []Scenario {
+	type cfg struct{ p, n, gmp int }
+	var cfgs []cfg
+	for n := 1; n <= 4; n++ {
+		cfgs = append(cfgs, cfg{1, n, 0}, cfg{0, n, 1}, cfg{-1, n, 1})
+	}
+	for _, p := range []int{2, 3, 7} {
+		cfgs = append(cfgs, cfg{p, 1, 0})
+	}
+	cfgs = append(cfgs, cfg{0, 1, 2}, cfg{-1, 1, 3}, cfg{2, 3, 0}, cfg{0, 3, 2})
+	var out []Scenario
+	for _, mode := range []string{"dc", "mc"} {
+		for _, c := range cfgs {
+			for k := 0; k < c.n; k++ {
+				sc := Scenario{Kind: "script", Mode: mode, P: c.p, N: c.n, Gmp: c.gmp}
+				for i := 0; i < k; i++ {
+					sc.Steps = append(sc.Steps, Step{Op: "ok", I: i, V: 100 + i})
+				}
+				sc.Steps = append(sc.Steps, Step{Op: "cancel"})
+				out = append(out, sc)
+			}
+			for _, ck := range []string{"cancel", "deadline"} {
+				for k := -1; k < c.n; k++ {
+					sc := Scenario{Kind: "timed", Mode: mode, P: c.p, N: c.n, Gmp: c.gmp, LatMode: 2, LatMax: 2, CancelKind: ck, CancelAt: -1}
+					if k >= 0 {
+						sc.CancelAt = 2*k + 1
+					}
+					out = append(out, sc)
+				}
+			}
+		}
+	}
+	return out
 }
 
 func TestVerif(t *testing.T) {
@@ -882,6 +1033,16 @@ func TestVerif(t *testing.T) {
 				}
 			}
 		}
+	}
+	// the sequential path under a cancelled / mid-flight-cancelled caller context, every call succeeding
+	for _, sc := range directedSequential() {
+		sc := sc
+		res.Count("directed-sequential-" + sc.Kind)
+		if sc.CancelAt < 0 {
+			res.Count("directed-sequential-already-cancelled")
+		}
+		o := check(t, &sc, nil, m, res)
+		res.Case(sc.key(), nontrivial(&sc, o), nil)
 	}
 	for _, f := range vlib.CorpusFiles(env.Corpus, ".json") {
 		b, err := os.ReadFile(f)
@@ -970,11 +1131,20 @@ func TestVerifRace(t *testing.T) {
 		}
 		var out []int
 		var err error
+		// one run in four of the context variants hands over an already cancelled context: a nil result
+		// still claims that every call was made
+		bg := context.Background()
+		if mode%2 == 1 && r.Chance(1, 4) {
+			c, cancel := context.WithCancel(bg)
+			cancel()
+			bg = c
+			res.Count("race-caller-cancelled")
+		}
 		switch mode {
 		case 0:
 			parallel.Do(p, n, func(i int) { eff[i] = i + 1 })
 		case 1:
-			err = parallel.DoContext(context.Background(), p, n, func(ctx context.Context, i int) error {
+			err = parallel.DoContext(bg, p, n, func(ctx context.Context, i int) error {
 				eff[i] = i + 1
 				if i == failAt {
 					return &callErr{i}
@@ -984,7 +1154,7 @@ func TestVerifRace(t *testing.T) {
 		case 2:
 			out = parallel.Map(p, in, func(x int) int { eff[x] = x + 1; return x * 2 })
 		case 3:
-			out, err = parallel.MapContext(context.Background(), p, in, func(ctx context.Context, x int) (int, error) {
+			out, err = parallel.MapContext(bg, p, in, func(ctx context.Context, x int) (int, error) {
 				eff[x] = x + 1
 				if x == failAt {
 					return 0, &callErr{x}
